@@ -40,7 +40,11 @@ def gen_logical(rng, private=False):
         node = models.portable_field_node(rng)
         if i == 0:
             node = spec.IntT()      # SQLAlchemy needs a scalar primary key
-        if i > 0 and rng.random() < 0.45:
+        if i > 0 and rng.random() < 0.2:
+            # the most common default of all: Optional[...] = None (a default that is falsy / None must still BE a default in every kind)
+            node = spec.UnionT([spec.IntT(), spec.NoneT()], hint=typing.Optional[int], src="Optional[int]")
+            fields.append(models.FieldSpec(nm, node, "default", rng.choice([None, None, 0])))
+        elif i > 0 and rng.random() < 0.45:
             req, d = models.default_for(rng, node)
             fields.append(models.FieldSpec(nm, node, req, d))
         else:
@@ -178,6 +182,29 @@ def run_case(ctx, rng, idx):  # noqa: C901, PLR0912, PLR0915
             for kind, v in have.items():
                 if not strict_eq(v, want):
                     ctx.violation(f"absent-field-default-differs:{kind}", f"{label}: {kind} holds {v!r} for absent {f.name}, declared default {want!r}", {**desc, "datum": repr(datum)})
+    # ---- omit_default: an object that holds its defaults dumps the same keys in every kind that has constructor-time defaults
+    opt_names = [f.name for f in fields if not f.required]
+    if opt_names:
+        minimal = {k: v for k, v in base.items() if k not in {key_of(f) for f in fields if not f.required}}
+        od_dumps = {}
+        for kind in ("dataclass", "namedtuple", "attrs", "pydantic"):
+            if kind not in loaders:
+                continue
+            obj = attempt(loaders[kind], copy.deepcopy(minimal))
+            if obj.kind != "ok":
+                continue
+            out = attempt(Retort(recipe=[name_mapping(omit_default=True), *recipe]).dump, obj.value, nodes[kind].hint)
+            ctx.count("omit_default_dumps")
+            if out.kind == "ok":
+                od_dumps[kind] = out.value
+            else:
+                ctx.violation(f"dump-failed:{kind}:{type(out.exc).__name__}", f"{kind}: omit_default dump failed: {out.exc!r}", desc)
+        if od_dumps:
+            ref_kind = next(iter(od_dumps))
+            for kind, d in od_dumps.items():
+                ctx.evaluated((repr(desc), "omit-default-dump", kind), nontrivial=kind != ref_kind)
+                if not strict_eq(_norm_dump(d), _norm_dump(od_dumps[ref_kind])):
+                    ctx.violation(f"kinds-dump-differently:omit_default:{kind}", f"omit_default=True, every optional field at its default: {kind} dumps {d!r}, {ref_kind} dumps {od_dumps[ref_kind]!r}", desc)
     # ---- dumps: equal data
     dumps = {}
     for kind, obj in loaded.items():
